@@ -20,7 +20,7 @@ from . import apisim_common as ac
 
 PROPERTY = "C18"
 TIERS = {
-    "quick": {"runs": 700, "budget_s": 110, "chunk": 10},
+    "quick": {"runs": 6000, "budget_s": 110, "chunk": 10},
     "thorough": {"runs": 24000, "budget_s": 900, "chunk": 20},
 }
 REQUIRED_PROBES = {
